@@ -59,11 +59,15 @@ Variable cb : option (list (str * N)).  (* a_cb of the current activation *)
 Hypothesis Hlfuns : forall f, In f lfuns -> In f funs.
 Hypothesis Hfun0 : forall f, In f funs -> uname0 f.
 Hypothesis Hfck : forall f, In f funs <-> assoc f fcells <> None.
-
-Definition fpins : pinset :=
-  {| vpin := fun c' w => exists f c cenv cbf, assoc f fcells = Some (c, c', cenv, cbf) /\ w = VFun (floc f) cbf;
-     spin := fun c v => exists f c' cenv cbf ps body, assoc f fcells = Some (c, c', cenv, cbf) /\
-                                                     assoc f FT = Some (ps, body) /\ v = RClos ps body cenv |}.
+Variable SP : option (list str).        (* the parameters of the executing function (None at module level) *)
+Variable selfv : option rvalue.         (* `cur` of the activation: the closure being executed *)
+Variable fnm : str.                     (* the VM name of the executing function *)
+Hypothesis HSPself : forall ps, SP = Some ps -> exists body cenv, selfv = Some (RClos ps body cenv).
+(* the cells holding function values, program-wide (a callee may see more functions than its caller): pinned *)
+Variable fpins : pinset.
+Hypothesis Hgpv : forall f c c' cenv cbf, assoc f fcells = Some (c, c', cenv, cbf) -> vpin fpins c' (VFun (floc f) cbf).
+Hypothesis Hgps : forall f c c' cenv cbf ps body, assoc f fcells = Some (c, c', cenv, cbf) -> assoc f FT = Some (ps, body) ->
+  spin fpins c (RClos ps body cenv).
 
 Lemma fun_name_neq : forall f x, In f funs -> uname x -> x <> f.
 Proof. intros f x Hf Hx ->. exact (uname_nfun _ Hx Hf). Qed.
@@ -83,7 +87,9 @@ Record Rg (env : fenv) (s : rstate) (g : gstate) : Prop := {
   Rg_nd : frames_nd (frames g);
   Rg_fpin : pins_ok fpins (locals env) (frames g) (store s) (cells g);
   Rg_flook : forall f c c' cenv cbf, assoc f fcells = Some (c, c', cenv, cbf) ->
-             flook cb (captured env) (locals env) (frames g) f c c'
+             flook cb (captured env) (locals env) (frames g) f c c';
+  Rg_cur : cur env = selfv;
+  Rg_cf : current_function (frames g) = Some fnm
 }.
 
 (* between statements: operand stack empty, special_scopes >= number of open blocks *)
@@ -176,7 +182,7 @@ Proof. intros B env env' [H1 H2] E. split; [intros x; rewrite E; apply H1|exact 
 
 Lemma Rg_ext : forall env s g g' d lo hi, Rg env s g -> ext d lo hi g g' -> frames_nd (frames g') -> Rg env s g'.
 Proof.
-  intros env s g g' d lo hi [Hfr Hb Ho Hbase Hun Hns Hpins Hnd Hfp Hfl] He Hnd'.
+  intros env s g g' d lo hi [Hfr Hb Ho Hbase Hun Hns Hpins Hnd Hfp Hfl Hcur Hcf] He Hnd'.
   destruct (ext_cells _ _ _ _ _ He) as [extra Ec].
   pose proof (ext_labs _ _ _ _ _ He) as Hl. pose proof (ext_tail _ _ _ _ _ He) as Ht.
   pose proof (ext_find _ _ _ _ _ He) as Hf. pose proof (ext_out _ _ _ _ _ He) as Hout.
@@ -200,6 +206,8 @@ Proof.
     destruct (locals env) as [|sc l] eqn:El; [destruct (Rfr_ne _ _ _ _ Hfr); congruence|].
     eapply flook_top; [exact Hfl|reflexivity|]. apply Hf. apply own_reg_not_src.
     assert (Hin : In f0 funs) by (apply Hfck; congruence). exact (proj1 (Hfun0 f0 Hin)).
+  - exact Hcur.
+  - cbn [current_function] in *. rewrite Hl. exact Hcf.
 Qed.
 
 Lemma Rg_ne : forall env s g, Rg env s g -> locals env <> [].
@@ -224,7 +232,7 @@ Proof.
       destruct (str_eqb k x) eqn:Ek; [eexists; eexists; reflexivity|]. destruct Hx as [->|Hx]; [now rewrite str_eqb_refl in Ek|auto]. }
     destruct Hft as (ps & body & Hft).
     destruct (proj2 Hfp c (RClos ps body cenv)) as [Hv _].
-    { cbn [fpins spin]. exists x, c0', cenv, cbf, ps, body. auto. }
+    { exact (Hgps x c c0' cenv cbf ps body E Hft). }
     unfold sget in Hg. rewrite Hv in Hg. inversion Hg; subst v. exact Hfo. }
   pose proof (Rfr_look _ _ _ _ Hfr x Hx) as H. rewrite Hl in H.
   destruct (find_in_function x (frames g)) as [c'|] eqn:E; [|contradiction]. cbn [orel] in H.
@@ -329,6 +337,7 @@ Proof.
   - constructor; [constructor|exact Hnd].
   - apply pins_push_; assumption.
   - intros f0 c0 c0' cenv cbf E. apply flook_push; [exact (Hfl _ _ _ _ _ E)|exact (proj1 (Rfr_ne _ _ _ _ Hfr))|exact Hs].
+  - cbn [current_function lab]. destruct lb; try discriminate Hs; assumption.
 Qed.
 
 Lemma popn_rel : forall m env s g, Rg env s g -> m < length (locals env) ->
@@ -337,7 +346,7 @@ Lemma popn_rel : forall m env s g, Rg env s g -> m < length (locals env) ->
 Proof.
   induction m as [|m IH]; intros env s g HR Hm.
   - exists g. split; [reflexivity|]. split; [|auto]. destruct env, HR. constructor; assumption.
-  - destruct env as [l cap cu], s as [st ro], g as [cs fs o tr]. destruct HR as [Hfr Hb Ho Hbase Hun Hns Hpins Hnd Hfp Hfl].
+  - destruct env as [l cap cu], s as [st ro], g as [cs fs o tr]. destruct HR as [Hfr Hb Ho Hbase Hun Hns Hpins Hnd Hfp Hfl Hcur Hcf].
     cbn [locals captured store rout cells frames out] in *.
     destruct l as [|sc l]; [cbn in Hm; lia|]. destruct l as [|sc' l]; [cbn in Hm; lia|].
     destruct fs as [|f fs]; [cbn in Hfr; contradiction|].
@@ -353,6 +362,8 @@ Proof.
       * inversion Hnd; assumption.
       * eapply pins_pop_; exact Hfp.
       * intros f0 c0 c0' cenv cbf E. eapply flook_pop. exact (Hfl _ _ _ _ _ E).
+      * pose proof Hfr as Hfr'. cbn [StmtRel.Rfr] in Hfr'. destruct Hfr' as [_ [Hspf _]].
+        cbn [current_function] in Hcf. destruct (lab f); try discriminate Hspf; exact Hcf.
     + cbn [locals length] in *. lia.
     + exists g'. split; [exact E|]. split; [exact HR'|]. auto.
 Qed.
@@ -601,23 +612,31 @@ Section Sim.
   Definition fvals (s : rstate) (g : gstate) : Prop :=
     (forall cy w, vpin fpins cy w -> cell_get g cy = Some w) /\ (forall c0 v, spin fpins c0 v -> sget s c0 = Some v).
 
-  Definition call_ok (fuel : nat) : Prop :=
-    forall f ps body c0 c0' cenv cbf vs s g1,
-      assoc f FT = Some (ps, body) -> assoc f fcells = Some (c0, c0', cenv, cbf) ->
+  Definition callee_ok (fuel : nat) (ps : list str) (body : list stmt) (cenv : list scope) (loc : str)
+             (cbf : option (list (str * N))) : Prop :=
+    forall vs s g1,
       Forall first_order vs -> length vs = length ps ->
       out g1 = rout s -> frames_nd (frames g1) -> fvals s g1 ->
       match call_clos_ fuel (RClos ps body cenv) vs s with
       | EVal v s' => first_order v /\ exists fuel' g2,
-            run_fn fuel' prog (floc f) (map inj vs) cbf g1 = RDone (Some (inj v)) g2 /\ val_keep s s' g1 g2
+            run_fn fuel' prog loc (map inj vs) cbf g1 = RDone (Some (inj v)) g2 /\ val_keep s s' g1 g2
       | ENoVal s' => exists fuel' g2,
-            run_fn fuel' prog (floc f) (map inj vs) cbf g1 = RDone None g2 /\ val_keep s s' g1 g2
+            run_fn fuel' prog loc (map inj vs) cbf g1 = RDone None g2 /\ val_keep s s' g1 g2
       | EFail fl s' => fail_post fl (exists fuel' e g2,
-            run_fn fuel' prog (floc f) (map inj vs) cbf g1 = RFail e g2 /\ err_rel_s fl e /\ out g2 = rout s')
+            run_fn fuel' prog loc (map inj vs) cbf g1 = RFail e g2 /\ err_rel_s fl e /\ out g2 = rout s')
       | EFuel => True
       end.
+  Definition call_ok (fuel : nat) : Prop :=
+    forall f ps body c0 c0' cenv cbf,
+      assoc f FT = Some (ps, body) -> assoc f fcells = Some (c0, c0', cenv, cbf) ->
+      callee_ok fuel ps body cenv (floc f) cbf.
+  (* `self(args)`: the executing function itself, with the activation's own captured cells *)
+  Definition self_ok (fuel : nat) : Prop :=
+    forall ps body cenv, selfv = Some (RClos ps body cenv) -> callee_ok fuel ps body cenv fnm cb.
 
   Variable FU : nat.
   Hypothesis Hcall : forall fuel', fuel' < FU -> call_ok fuel'.
+  Hypothesis Hself : forall fuel', fuel' < FU -> self_ok fuel'.
 
   (* what a compiled item is in the final code: break / continue placeholders become jmp_pop to the loop's
      break target bt / continue target ct (that is what `resolve` does, see items_at_resolve) *)
@@ -690,7 +709,7 @@ Section Sim.
 
   Definition stmt_spec (st : stmt) : Prop :=
     forall pins lr il sl bt ct fuel k a g env s B, fuel <= FU ->
-      ok_stmt FT il B st = true -> bound_in B env ->
+      ok_stmt FT SP il B st = true -> bound_in B env ->
       items_at bt ct k (sitems c lr sl st) -> endok (k + length (sitems c lr sl st)) (is_ret st) ->
       lc_ok il sl bt ct env (k + length (sitems c lr sl st)) ->
       a_ip a = k -> a_cb a = cb -> Rst pins env s a g ->
@@ -701,7 +720,7 @@ Section Sim.
 
   Definition block_spec (l : list stmt) : Prop :=
     forall pins lr il sl bt ct fuel k a g env s B, fuel <= FU ->
-      ok_block FT il B l = true -> bound_in B env ->
+      ok_block FT SP il B l = true -> bound_in B env ->
       items_at bt ct k (bitems c lr sl l) -> endok (k + length (bitems c lr sl l)) (ends_ret l) ->
       lc_ok il sl bt ct env (k + length (bitems c lr sl l)) ->
       a_ip a = k -> a_cb a = cb -> Rst pins env s a g ->
@@ -1181,7 +1200,7 @@ Section Sim.
     end.
 
   Lemma rhs_run : forall pins e fuel k a g env s B,
-    fuel <= FU -> ok_rhs FT B e = true -> bound_in B env ->
+    fuel <= FU -> ok_rhs FT SP B e = true -> bound_in B env ->
     code_at code k (xcode c e) -> k + length (xcode c e) < length code ->
     a_ip a = k -> a_cb a = cb -> a_ops a = [] -> Rg pins env s g ->
     rhs_res pins env (k + length (xcode c e)) a g (eval fuel env e s).
@@ -1197,7 +1216,75 @@ Section Sim.
       - destruct He as (-> & e0 & g' & Hf & Hr & Ho). apply fail_post_intro. exists e0, g'.
         split; [exact Hf|]. split; [now apply err_rel_s_of|exact Ho]. }
     (* a call f(args) *)
-    destruct e as [| | | | | | | | | |fe args| | | |]; try discriminate. destruct fe as [| | | |f| | | | | | | | | |]; try discriminate.
+    destruct e as [| | | | | | | | | |fe args|args| | |]; try discriminate.
+    2:{ (* self(args): the executing function, with the activation's own captured cells *)
+      cbn [ok_call] in Hoc. revert Hoc. case_eq SP; [intros ps ESP Hoc|intros ESP Hoc; discriminate].
+      apply Bool.andb_true_iff in Hoc as [Har Hoa]. apply Nat.eqb_eq in Har.
+      destruct (HSPself ps ESP) as (body & cenv & Eself).
+      destruct fuel as [|fuel]; [exact Logic.I|]. rewrite eval_ESelf.
+      cbn [xcode] in *. rewrite !app_length in *. cbn [length] in *.
+      set (la := length (argcode (S c) args)) in *. set (na := length (argloads (S c) args)) in *.
+      apply code_at_app in Hc as [Hca Hc]. apply code_at_app in Hc as [Hcl Hc]. fold la in Hcl, Hc.
+      apply code_at_cons in Hc as [Hi4 _].
+      assert (Hna : na = length args) by (unfold na; clear; generalize (S c); induction args; intros n; cbn [argloads length]; [reflexivity|now rewrite IHargs]).
+      assert (Hcode : length args <= length code).
+      { assert (length args <= la). { unfold la. clear. generalize (S c). induction args as [|e l IH]; intros n; cbn [argcode length]; [lia|].
+          rewrite !app_length. cbn [length]. specialize (IH (S n)). lia. } lia. }
+      assert (Hsmc : small (S c + length args)) by (eapply small_le; [|exact Hsmall]; lia).
+      pose proof (args_run args (S c) k pins a g env s B [] fuel Hoa Hb Hsmc ltac:(lia)
+                    Hca ltac:(fold la; lia) eq_refl Hops HG) as Hargs.
+      fold la in Hargs.
+      destruct (evals_ fuel env args s []) as [[vs s1]|r]; cbn [args_res] in Hargs.
+      2:{ destruct r as [? ?|?|fl s1|]; try contradiction; cbn [rhs_res]; [|exact Logic.I].
+          destruct Hargs as (-> & e0 & g' & Hf & Hr & Ho). apply fail_post_intro. exists e0, g'.
+          split; [exact Hf|]. split; [now apply err_rel_s_of|exact Ho]. }
+      destruct Hargs as (-> & vs' & Evs & Hlv' & Hfos & g3 & R3 & HG3 & Ht3 & Hlow3 & Hreg3).
+      cbn [rev app] in Evs. subst vs'.
+      rewrite (Rg_cur _ _ _ HG), Eself.
+      set (a3 := upd a (k + la) []) in *.
+      destruct (loads_run args (map inj vs) (S c) (k + la) a3 g3 ltac:(rewrite map_length; congruence)) as (g4 & R4 & Hf4 & Hc4 & HR4).
+      { intros j v Hj. rewrite nth_error_map in Hj. destruct (nth_error vs j) as [v0|] eqn:Ev; [|discriminate].
+        inversion Hj; subst v. now apply Hreg3. }
+      { exact Hcl. }
+      { reflexivity. }
+      cbn [a3 upd set_ops a_ops app] in R4. fold a3 in R4.
+      set (a4 := upd a3 (k + la + length args) (map inj vs)) in *.
+      set (i4 := mkI OP_CALL_SELF []) in *.
+      set (g4t := trc name a4 g4 i4).
+      assert (HG4t : Rg pins env s g4t) by (apply Rg_trc; apply HR4; exact HG3).
+      assert (Hi4' : nth_error code (a_ip a4) = Some i4).
+      { cbn [a4 upd set_ip a_ip]. replace (k + la + length args) with (k + la + na) by lia. exact Hi4. }
+      assert (Hx : exec_d DCallSelf a4 g4t = SCall fnm cb (map inj vs) (set_ops a4 []) g4t).
+      { unfold exec_d. rewrite (Rg_cf _ _ _ HG4t). cbn [a4 a3 upd set_ip set_ops a_ops a_cb]. now rewrite Hcb. }
+      assert (Hfin : S (a_ip a4) = k + (la + (na + 1))) by (cbn [a4 upd set_ip a_ip]; lia).
+      assert (Htl4 : tl (frames g4t) = tl (frames g)).
+      { change (frames g4t) with (frames g4). rewrite Hf4, Ht3. reflexivity. }
+      assert (R4' : xrun prog name code a g a4 g4) by (eapply xrun_trans; [exact R3|exact R4]).
+      pose proof (Hself fuel ltac:(lia) ps body cenv Eself vs s g4t Hfos ltac:(congruence)
+                    (Rg_out _ _ _ HG4t) (Rg_nd _ _ _ HG4t) (Rg_fvals _ _ _ _ HG4t)) as Hcal.
+      destruct (call_clos_ fuel (RClos ps body cenv) vs s) as [v s1|s1|fl s1|]; cbn [rhs_res]; [| | |exact Logic.I].
+      - destruct Hcal as (Hfov & fuel' & g6 & Hrun & Hkeep). split; [exact Hfov|].
+        exists (next_act (set_ops a4 []) (Some (inj v))), g6. split; [|split; [|split; [|split; [|split; [|split]]]]].
+        + eapply xrun_trans; [exact R4'|]. eapply xr_call; [exact Hi4'|reflexivity|exact Hx|exact Hrun|apply xr_refl].
+        + unfold next_act. cbn [set_ip a_ip set_ops]. exact Hfin.
+        + reflexivity.
+        + eapply Rg_val_keep; [exact HG4t|exact Hkeep].
+        + rewrite (proj1 Hkeep). exact Htl4.
+        + repeat split.
+        + reflexivity.
+      - destruct Hcal as (fuel' & g6 & Hrun & Hkeep).
+        exists (next_act (set_ops a4 []) None), g6. split; [|split; [|split; [|split; [|split; [|split]]]]].
+        + eapply xrun_trans; [exact R4'|]. eapply xr_call; [exact Hi4'|reflexivity|exact Hx|exact Hrun|apply xr_refl].
+        + unfold next_act. cbn [set_ip a_ip set_ops]. exact Hfin.
+        + reflexivity.
+        + eapply Rg_val_keep; [exact HG4t|exact Hkeep].
+        + rewrite (proj1 Hkeep). exact Htl4.
+        + repeat split.
+        + reflexivity.
+      - eapply fail_post_map; [|exact Hcal]. intros (fuel' & e0 & g6 & Hrun & Hr & Ho). exists e0, g6.
+        split; [|split; assumption]. exists a4, g4. split; [exact R4'|]. right.
+        exists i4, DCallSelf, fnm, cb, (map inj vs), (set_ops a4 []), g4t, fuel'. auto. }
+    destruct fe as [| | | |f| | | | | | | | | |]; try discriminate.
     cbn [ok_call] in Hoc. destruct (assoc f FT) as [[ps body]|] eqn:Eft; [|discriminate].
     apply Bool.andb_true_iff in Hoc as [Har Hoa]. apply Nat.eqb_eq in Har.
     destruct fuel as [|fuel]; [exact Logic.I|]. rewrite eval_ECall.
@@ -1207,8 +1294,8 @@ Section Sim.
     assert (Hl0 : 0 < length (locals env)) by (pose proof (Rg_ne _ _ _ HG); destruct (locals env); [congruence|cbn; lia]).
     destruct (Rg_flook _ _ _ HG f c0 c0' cenv cbf Efc 0 Hl0) as [Hls Hlv]. cbn [skipn] in Hls, Hlv.
     destruct (Rg_fpin _ _ _ HG) as [Hvp Hsp].
-    destruct (Hsp c0 (RClos ps body cenv)) as [Hsv _]; [cbn [fpins spin]; exists f, c0', cenv, cbf, ps, body; auto|].
-    destruct (Hvp c0' (VFun (floc f) cbf)) as [Hvv _]; [cbn [fpins vpin]; exists f, c0, cenv, cbf; auto|].
+    destruct (Hsp c0 (RClos ps body cenv)) as [Hsv _]; [exact (Hgps f c0 c0' cenv cbf ps body Efc Eft)|].
+    destruct (Hvp c0' (VFun (floc f) cbf)) as [Hvv _]; [exact (Hgpv f c0 c0' cenv cbf Efc)|].
     rewrite eval_EVar, Hls. unfold sget at 1. rewrite Hsv.
     (* code layout *)
     cbn [xcode] in *. cbn [app] in Hc. rewrite !app_length in *. cbn [length app] in *.
@@ -1283,7 +1370,7 @@ Section Sim.
     assert (Htl5 : tl (frames g5t) = tl (frames g)).
     { change (frames g5t) with (frames g4). rewrite Hf4, Ht3, Ht2. reflexivity. }
     (* the callee *)
-    pose proof (Hcall (S fuel) ltac:(lia) f ps body c0 c0' cenv cbf vs s g5t Eft Efc Hfos ltac:(congruence)
+    pose proof (Hcall (S fuel) ltac:(lia) f ps body c0 c0' cenv cbf Eft Efc vs s g5t Hfos ltac:(congruence)
                   (Rg_out _ _ _ HG5t) (Rg_nd _ _ _ HG5t) (Rg_fvals _ _ _ _ HG5t)) as Hcal.
     destruct (call_clos_ (S fuel) (RClos ps body cenv) vs s) as [v s1|s1|fl s1|]; cbn [rhs_res]; [| | |exact Logic.I].
     - destruct Hcal as (Hfov & fuel' & g6 & Hrun & Hkeep). split; [exact Hfov|].
@@ -1605,7 +1692,7 @@ Section Sim.
   Lemma lc_ok_m : forall il sl bt ct env hi, lc_ok il sl bt ct env hi -> forall m, sl = Some m -> 1 <= m.
   Proof. intros il sl bt ct env hi [_ H] m E. exact (proj1 (H m E)). Qed.
 
-  Lemma sitems_pos : forall il B lr sl st, ok_stmt FT il B st = true -> 1 <= length (sitems c lr sl st).
+  Lemma sitems_pos : forall il B lr sl st, ok_stmt FT SP il B st = true -> 1 <= length (sitems c lr sl st).
   Proof.
     intros il B lr sl st H. destruct st; try discriminate; cbn [sitems]; rewrite ?app_length; cbn [length]; try lia.
     - destruct name0 as [x|]; [|discriminate]. destruct collide; [discriminate|]. rewrite ?app_length. cbn [length]. lia.
@@ -1681,7 +1768,7 @@ Section Sim.
   (* the machine has just pushed the block frame (if_stmt / else_stmt); body, then `done` *)
   Lemma in_block_run : forall body, block_spec body ->
     forall pins lr il sl bt ct fuel kb a g env s B lb, fuel <= FU ->
-      ok_block FT il B body = true -> bound_in B env ->
+      ok_block FT SP il B body = true -> bound_in B env ->
       items_at bt ct kb (bitems c lr (option_map S sl) body ++ [I OP_DONE []]) ->
       kb + length (bitems c lr (option_map S sl) body) + 1 < length code ->
       lc_ok il sl bt ct env (kb + length (bitems c lr (option_map S sl) body) + 1) ->
@@ -2667,10 +2754,10 @@ Lemma map_CI_all : forall l, Forall is_CI (map CI l).
 Proof. induction l; cbn [map]; constructor; [exact Logic.I|assumption]. Qed.
 
 Definition ci_spec (c : nat) (st : stmt) : Prop :=
-  forall B lr sl, ok_stmt FT false B st = true -> Forall is_CI (sitems c lr sl st).
+  forall B lr sl, ok_stmt FT SP false B st = true -> Forall is_CI (sitems c lr sl st).
 
 Lemma bitems_CI : forall c l, Forall (ci_spec c) l ->
-  forall B lr sl, ok_block FT false B l = true -> Forall is_CI (bitems c lr sl l).
+  forall B lr sl, ok_block FT SP false B l = true -> Forall is_CI (bitems c lr sl l).
 Proof.
   intros c. induction l as [|st l IH]; intros HF B lr sl Hok; [constructor|].
   cbn [ok_block] in Hok. apply Bool.andb_true_iff in Hok as [H1 H2]. cbn [bitems].
@@ -2706,7 +2793,7 @@ Proof.
   - intros [e|] _ B lr sl H; [|discriminate]. cbn [sitems]. ci_tac.
 Qed.
 
-Lemma bitems_all_CI : forall c l B lr sl, ok_block FT false B l = true -> Forall is_CI (bitems c lr sl l).
+Lemma bitems_all_CI : forall c l B lr sl, ok_block FT SP false B l = true -> Forall is_CI (bitems c lr sl l).
 Proof. intros c l. apply bitems_CI. apply Forall_forall. intros st _. apply sitems_CI. Qed.
 
 Lemma CI_strip : forall its, Forall is_CI its -> map CI (strip its) = its.
@@ -2728,7 +2815,7 @@ Qed.
 Section Top.
 Variable path : str.
 
-Theorem cblock_correct : forall l B, ok_block FT false B l = true ->
+Theorem cblock_correct : forall l B, ok_block FT SP false B l = true ->
   forall c st pins prog name pre post_ a g env s fuel,
   let mid := strip (fst (cblockT path c None l st)) in
   let code := pre ++ mid ++ post_ in
@@ -2736,6 +2823,7 @@ Theorem cblock_correct : forall l B, ok_block FT false B l = true ->
   (post_ <> [] \/ ends_ret l = true) -> small (c + 2 * length code + 8) ->
   a_ip a = length pre -> a_cb a = cb -> Rst pins env s a g -> bound_in B env ->
   (forall fuel', fuel' < fuel -> call_ok prog fuel') ->
+  (forall fuel', fuel' < fuel -> self_ok prog fuel') ->
   match exec_block fuel env l s with
   | SOk SigNormal env' s' => exists a' g',
         xrun prog name code a g a' g' /\ a_ip a' = fin /\
@@ -2750,11 +2838,11 @@ Theorem cblock_correct : forall l B, ok_block FT false B l = true ->
   | SFuel => True
   end.
 Proof.
-  intros l B Hok c st pins prog name pre post_ a g env s fuel mid code fin Hpost Hsm Hip Hcb HR Hb Hcall.
+  intros l B Hok c st pins prog name pre post_ a g env s fuel mid code fin Hpost Hsm Hip Hcb HR Hb Hcall Hself.
   pose proof (bitems_all_CI c l B (lreg st) None Hok) as HCI.
-  assert (Emid : mid = strip (bitems c (lreg st) None l)) by (unfold mid; now rewrite (cblockT_ok path c l FT false B None st Hok)).
+  assert (Emid : mid = strip (bitems c (lreg st) None l)) by (unfold mid; now rewrite (cblockT_ok path c l FT SP false B None st Hok)).
   assert (Elen : length mid = length (bitems c (lreg st) None l)) by (rewrite Emid; now apply strip_CI_length).
-  pose proof (block_sim prog name code c Hsm fuel Hcall l pins (lreg st) false None 0 0 fuel (length pre) a g env s B (le_n _) Hok Hb) as H.
+  pose proof (block_sim prog name code c Hsm fuel Hcall Hself l pins (lreg st) false None 0 0 fuel (length pre) a g env s B (le_n _) Hok Hb) as H.
   rewrite <- Elen in H. fold fin in H.
   assert (Hit : items_at code 0 0 (length pre) (bitems c (lreg st) None l)).
   { apply items_at_strip; [exact HCI|]. rewrite <- Emid. apply code_at_embed. }
@@ -2780,7 +2868,7 @@ Arguments Rst : clear implicits.
 
 (* ================================================================ whole modules: Eval.run vs Model.execute *)
 Lemma Rst_init : forall name,
-  Rst [] [] [] [] (fun f => f) None no_pins {| locals := [[]]; captured := []; cur := None |} {| store := []; rout := [] |}
+  Rst [] [] [] [] None None name no_pins no_pins {| locals := [[]]; captured := []; cur := None |} {| store := []; rout := [] |}
       (act0 name [] None) (push_frame g0 (LFun name)).
 Proof.
   intros name. split; [|split; [reflexivity|cbn; lia]].
@@ -2791,7 +2879,7 @@ Proof.
   - cbn. split; [intros y Hy; congruence|exact Logic.I].
   - split; intros ? ? [].
   - repeat constructor.
-  - split; [intros cy w (f & c0 & cenv & cbf & E & _); discriminate|intros c0 v (f & c0' & cenv & cbf & ps & body & E & _); discriminate].
+  - split; intros ? ? [].
   - intros f c0 c0' cenv cbf E. discriminate.
 Qed.
 
@@ -2807,9 +2895,9 @@ Qed.
 Definition ret_mod : instr := {| op := OP_RET_MOD; args := [] |}.
 Definition module_code (p : source) : list instr := strip (bitems 0 0 None p) ++ [ret_mod].
 
-Lemma cprogram_frag : forall p, ok_block [] false [] p = true -> cprogram path p = [(s_module_fn path, module_code p)].
+Lemma cprogram_frag : forall p, ok_block [] None false [] p = true -> cprogram path p = [(s_module_fn path, module_code p)].
 Proof.
-  intros p H. unfold cprogram. rewrite cblock0_eq, (cblockT_ok path 0 p [] false [] None _ H). reflexivity.
+  intros p H. unfold cprogram. rewrite cblock0_eq, (cblockT_ok path 0 p [] None false [] None _ H). reflexivity.
 Qed.
 
 Definition vm_outcome_ok (r : routcome) (o : outcome) : Prop :=
@@ -2826,7 +2914,7 @@ Definition vm_outcome_ok (r : routcome) (o : outcome) : Prop :=
 Definition no_claim (r : routcome) : Prop :=
   match r with ROFail f => f = FType 13%N \/ f = FType 3%N | _ => False end.
 
-Theorem module_correct : forall p, ok_block [] false [] p = true -> small (2 * length (module_code p) + 8) ->
+Theorem module_correct : forall p, ok_block [] None false [] p = true -> small (2 * length (module_code p) + 8) ->
   forall fuel, snd (run fuel p) <> ROFuel -> no_claim (snd (run fuel p)) \/
   exists fuel', fst (fst (execute fuel' (cprogram path p) (s_module_fn path))) = fst (run fuel p) /\
                 vm_outcome_ok (snd (run fuel p)) (snd (fst (execute fuel' (cprogram path p) (s_module_fn path)))).
@@ -2835,13 +2923,16 @@ Proof.
   set (name := s_module_fn path).
   set (P := cprogram path p).
   pose proof (cblock_correct [] [] [] [] (fun f => f) None ltac:(intros f []) ltac:(intros f []) ltac:(intros f; cbn; split; [intros []|congruence])
+                None None name ltac:(intros ps E; discriminate) no_pins ltac:(intros f c0 c0' cenv cbf E; discriminate)
+                ltac:(intros f c0 c0' cenv cbf ps body E; discriminate)
                 path p [] Hok 0 {| fid := 0; lreg := 0; fbuf := [] |} no_pins P name [] [ret_mod]
                 (act0 name [] None) (push_frame g0 (LFun name))
                 {| locals := [[]]; captured := []; cur := None |} {| store := []; rout := [] |} fuel) as H.
-  cbv zeta in H. rewrite (cblockT_ok path 0 p [] false [] None _ Hok) in H. cbn [fst app length Nat.add lreg] in H.
+  cbv zeta in H. rewrite (cblockT_ok path 0 p [] None false [] None _ Hok) in H. cbn [fst app length Nat.add lreg] in H.
   fold (module_code p) in H.
   specialize (H ltac:(left; discriminate) Hsm eq_refl eq_refl (Rst_init name) ltac:(split; [intros x; cbn; split; [congruence|intros [[]|[]]]|intros x []])
-                ltac:(intros fuel' _ f ps body c0 c0' cenv cbf vs s0 g1 E; discriminate)).
+                ltac:(intros fuel' _ f ps body c0 c0' cenv cbf E; discriminate)
+                ltac:(intros fuel' _ ps body cenv E; discriminate)).
   unfold run in *.
   assert (Ecode : assoc name P = Some (module_code p)).
   { unfold P. rewrite (cprogram_frag p Hok). cbn [assoc]. fold name. now rewrite str_eqb_refl. }
@@ -2850,7 +2941,7 @@ Proof.
   - destruct sig as [| | |[v|]]; try contradiction.
     2:{ (* a `return` at module level ends the module *)
       destruct H as (env'' & a' & g' & Hn & Hi & Hops & Hfo & HG & Ha).
-      pose proof (Rg_drop _ _ _ _ _ _ _ _ _ HG) as Hdrop.
+      pose proof (Rg_drop _ _ _ _ _ _ _ _ _ _ _ HG) as Hdrop.
       destruct (xrun_loop _ _ _ _ _ _ _ Hn) as (N & n & Hloop).
       set (f0 := Nat.max N (n + 1)).
       set (gf := with_frames (add_trace g' (name, N.of_nat (a_ip a'), op (mkI OP_RET []), N.of_nat (length (frames g')),
@@ -2865,11 +2956,11 @@ Proof.
         cbn [loop]. rewrite Hi. unfold Model.exec. change (decode (mkI OP_RET [])) with (DOk DRet). cbn [exec_d].
         rewrite Hops. cbn [add_trace frames]. rewrite Hdrop. reflexivity. }
       right. exists (S f0). unfold execute. fold P. rewrite Hrun. cbn [fst snd gf with_frames frames out add_trace].
-      split; [exact (Rg_out _ _ _ _ _ _ _ _ _ HG)|exact Logic.I]. }
+      split; [exact (Rg_out _ _ _ _ _ _ _ _ _ _ _ HG)|exact Logic.I]. }
     destruct H as (a' & g' & Hn & Hip & (HG & Hops & Hss) & Ha & Hd).
     destruct Hd as (Hd & HB' & _). pose proof (same_tl_length {| locals := [[]]; captured := []; cur := None |} env' ltac:(cbn; discriminate) Hd) as Hl. cbn [locals length] in Hl.
-    pose proof (Rg_base _ _ _ _ _ _ _ _ _ HG) as Hbase. rewrite Hl in Hbase.
-    pose proof (Rg_fr _ _ _ _ _ _ _ _ _ HG) as Hfr.
+    pose proof (Rg_base _ _ _ _ _ _ _ _ _ _ _ HG) as Hbase. rewrite Hl in Hbase.
+    pose proof (Rg_fr _ _ _ _ _ _ _ _ _ _ _ HG) as Hfr.
     destruct (locals env') as [|sc [|sc' l']]; cbn [length] in Hl; try discriminate.
     destruct g' as [cs' fs' o' tr']. cbn [frames out] in *.
     destruct fs' as [|f fs]; [cbn in Hfr; contradiction|]. cbn [skipn] in Hbase. subst fs.
@@ -2889,7 +2980,7 @@ Proof.
       rewrite Hops. cbn [add_trace frames with_frames drop_to_function cells out trace]. rewrite Hsp. reflexivity. }
     destruct Hrun as [tr'' Hrun]. right.
     exists (S f0). unfold execute. fold P. rewrite Hrun. cbn [fst snd frames out].
-    split; [exact (Rg_out _ _ _ _ _ _ _ _ _ HG)|exact Logic.I].
+    split; [exact (Rg_out _ _ _ _ _ _ _ _ _ _ _ HG)|exact Logic.I].
   - apply fail_post_inv in H. destruct H as [[->| ->]|H]; [left; left; reflexivity|left; right; reflexivity|right].
     destruct H as (e & g' & Hn & Hr & Ho).
     destruct (xfail_loop _ _ _ _ _ _ _ Hn) as (N & n & Hloop).
